@@ -20,11 +20,14 @@
                 code (finding F-C11): `MultiChan.no_lost_wake_false` is the negation, with a
                 trace of the real implementation as witness; `MultiChan.no_lost_wake_partial`
                 proves it whenever the waiter list is homogeneous.
-    Chan        see the section header below.
+    Chan        all clauses proved for the three kinds: exactly-once and per-sender FIFO,
+                capacity / no-overwrite for the bounded ring, single wake-up, and
+                `receiver_resumed_*` (publish-then-raise vs clear-then-recheck).
 -/
 import LibfiberVerif.Proof.Signal
 import LibfiberVerif.Proof.MultiChanRingStep
 import LibfiberVerif.Proof.ChanWakeStep
+import LibfiberVerif.Proof.ChanBWakeStep
 
 namespace LibfiberVerif.Props.C11
 
@@ -339,6 +342,86 @@ theorem receiver_not_stranded_queue (k : Kind) (cap : Nat) (hk : k ≠ .bounded)
     ¬ asleep s w ∧ (committed s w → s.p.word = .raised) :=
   not_stranded_of_inv (winv_of_run hk h) ha w hidle
 
+/-- `exactly_once` (bounded): what has been received is exactly the first `low` messages in the
+    order the senders claimed their slots (CAS on `high`). -/
+theorem exactly_once_bounded (cap : Nat) (es : List Ev) (s : St) (h : (sys .bounded cap).run es = some s) :
+    s.recvd = (s.sent.map Prod.snd).take s.low ∧ s.recvd <+: s.sent.map Prod.snd ∧
+    s.sent.length = s.high ∧ s.low ≤ s.high ∧ (∀ p, p ∈ s.sent → p.2 ≠ 0) := by
+  have hb := binv_of_run h
+  exact ⟨hb.recvd_eq, by rw [hb.recvd_eq]; exact List.take_prefix _ _, hb.len, hb.lowhigh.1, hb.vnz⟩
+
+/-- `per_sender_fifo` (bounded): a sender's messages are claimed — hence received — in the
+    order of its calls to send. -/
+theorem per_sender_fifo_bounded (cap : Nat) (es : List Ev) (s : St) (f : Nat)
+    (h : (sys .bounded cap).run es = some s) :
+    sentBy s f <+: s.calls f ∧ sentBy s f ++ (s.pc f).pending = s.calls f := by
+  have := (binv_of_run h).calls_eq f
+  exact ⟨⟨_, this⟩, this⟩
+
+/-- `bounded_no_overwrite`: the channel never holds more than `size` messages (claimed and not
+    yet consumed); a sender writes only into a slot that holds NULL — the slot of the sequence
+    number it claimed, which no other fiber writes —; and every message that is claimed and
+    not yet consumed is either in its slot or still to be written by its (unique) claimer. -/
+theorem bounded_no_overwrite (cap : Nat) (es : List Ev) (s : St) (h : (sys .bounded cap).run es = some s) :
+    s.high - s.low ≤ s.cap ∧
+    (∀ f v i, s.pc f = .sClaimed v i → s.low ≤ i ∧ i < s.high ∧ qown s i = f ∧ s.buf (i % s.cap) = 0) ∧
+    (∀ i, s.low ≤ i → i < s.high → (∀ f m, s.pc f ≠ .rCleared i m) →
+      s.buf (i % s.cap) = qval s i ∨ (s.buf (i % s.cap) = 0 ∧ s.pc (qown s i) = .sClaimed (qval s i) i)) ∧
+    (∀ i j, s.low ≤ i → i < j → j < s.high → i % s.cap ≠ j % s.cap) := by
+  have hb := binv_of_run h
+  refine ⟨hb.lowhigh.2, fun f v i hf => ?_, hb.slots, fun i j h1 h2 h3 => ?_⟩
+  · obtain ⟨a, b, c, _, e⟩ := hb.claimed f v i hf
+    exact ⟨a, b, c, e⟩
+  · exact mod_ne_of_lt h2 (by have := hb.lowhigh; omega)
+
+/-- the write itself: at the step in which a sender stores its message the slot holds NULL -/
+theorem send_writes_null_slot (cap : Nat) (es : List Ev) (s s' : St) (f i x : Nat)
+    (h : (sys .bounded cap).run es = some s) (v hh : Nat) (hpc : s.pc f = .sClaimed v hh)
+    (hs : step s (.wBuf f i x) = some s') : s.buf i = 0 ∧ x = v := by
+  have hb := binv_of_run h
+  obtain ⟨hk, _⟩ := kind_of_run h
+  simp only [step, hk, hpc] at hs
+  split at hs
+  · simp at hs
+  · split at hs <;> simp at hs
+    rename_i hc
+    obtain ⟨hi, hx⟩ := hc
+    subst hi
+    exact ⟨(hb.claimed f v hh hpc).2.2.2.2, hx⟩
+
+/-- `receiver_resumed` (bounded): the message with sequence number `low` is in its slot while no
+    sender is between claiming a slot and its exchange of RAISED ⇒ the receiver's next CAS
+    fails (word = RAISED) if it has decided to sleep, and if it is asleep a sender has taken
+    it out of the word and is on its way to wake it. -/
+theorem receiver_resumed_bounded (cap : Nat) (hcap : 0 < cap) (es : List Ev) (s : St) (w : Nat)
+    (h : (sys .bounded cap).run es = some s) (ha : bavail s) (hq : ∀ g, ¬ binFlight s g) :
+    (committed s w → s.p.word = .raised) ∧
+    (asleep s w → ∃ g, s.p.waker w = some g ∧ (s.p.pc g).targets w) :=
+  bresumed_of_inv (bwinv_of_run hcap h) ha hq w
+
+theorem receiver_not_stranded_bounded (cap : Nat) (hcap : 0 < cap) (es : List Ev) (s : St) (w : Nat)
+    (h : (sys .bounded cap).run es = some s) (ha : bavail s) (hidle : ∀ g, g ≠ w → s.pc g = .idle) :
+    ¬ asleep s w ∧ (committed s w → s.p.word = .raised) :=
+  bnot_stranded_of_inv (bwinv_of_run hcap h) ha w hidle
+
+/-- `exactly_once` for all three kinds: the received messages are a prefix of the messages in
+    linearisation order (slot claim / tail swap): each message is received at most once, only
+    messages that were sent are received, and never out of that order. -/
+theorem exactly_once (k : Kind) (cap : Nat) (es : List Ev) (s : St) (h : (sys k cap).run es = some s) :
+    s.recvd <+: s.sent.map Prod.snd := by
+  cases k with
+  | bounded => exact (exactly_once_bounded cap es s h).2.1
+  | unbounded => exact (exactly_once_queue .unbounded cap (by simp) es s h).2.1
+  | sp => exact (exactly_once_queue .sp cap (by simp) es s h).2.1
+
+/-- `per_sender_fifo` for all three kinds -/
+theorem per_sender_fifo (k : Kind) (cap : Nat) (es : List Ev) (s : St) (f : Nat)
+    (h : (sys k cap).run es = some s) : sentBy s f <+: s.calls f := by
+  cases k with
+  | bounded => exact (per_sender_fifo_bounded cap es s f h).1
+  | unbounded => exact (per_sender_fifo_queue .unbounded cap (by simp) es s f h).1
+  | sp => exact (per_sender_fifo_queue .sp cap (by simp) es s f h).1
+
 /-! non-vacuity: runs of the real implementation (harness/chan.c, script `r,r|s1,s2`, 2 kernel
     threads, VR_SCHED=rand VR_SWITCH=2 VR_SEED=3) for the three kinds, projected to model
     events; in each the receiver really goes to sleep on the empty channel and is woken by the
@@ -390,6 +473,13 @@ example : ((sys .bounded 2).run traceBounded).map (fun s => (s.recvd, s.low, s.h
 example : ((sys .unbounded 0).run (traceUnbounded.take 12)).map
       (fun s => (headNext s, s.pc 17, s.p.pc 16, s.p.word))
     = some (2, .sPublished 1, .parked, .fiber 16) := by decide
+
+/-- the hypotheses of `receiver_resumed_bounded` are met inside `traceBounded`: after 14 events
+    the message is in its slot, the sender has not yet exchanged (in flight), the receiver is
+    parked in the word -/
+example : ((sys .bounded 2).run (traceBounded.take 14)).map
+      (fun s => (s.buf (s.low % s.cap), s.pc 17, s.p.pc 16, s.p.word))
+    = some (1, .sPublished 1, .parked, .fiber 16) := by decide
 
 end Chan
 
